@@ -13,6 +13,7 @@ import DropletsVerif.Driver.C20
 import DropletsVerif.Driver.C03
 import DropletsVerif.Driver.C13
 import DropletsVerif.Driver.C16
+import DropletsVerif.Driver.C17
 
 open DV.Drv
 
@@ -31,6 +32,7 @@ def dispatch (line : String) : String :=
   | "c03" :: args => handleC03 args
   | "c13" :: args => handleC13 args
   | "c16" :: args => handleC16 args
+  | "c17" :: args => handleC17 args
   | "c15" :: args => handleC15 args
   | _ => "bad-op"
 
